@@ -97,8 +97,10 @@ class SgzCropper(SgzReader):
 
         # We need to inform the SEG-Y binary header what has happened to the trace length, otherwise
         # segyio will get all confused if attempting to read the cropped SGZ converted back to SEG-Y
-        header[DISK_BLOCK_BYTES + SEGY_TEXT_HEADER_BYTES + 20:
-               DISK_BLOCK_BYTES + SEGY_TEXT_HEADER_BYTES + 22] = struct.pack('>H', len_zslices)
+        # (original-format files have a single header block, without the SEG-Y file header)
+        if len(header) >= DISK_BLOCK_BYTES + SEGY_TEXT_HEADER_BYTES + 22:
+            header[DISK_BLOCK_BYTES + SEGY_TEXT_HEADER_BYTES + 20:
+                   DISK_BLOCK_BYTES + SEGY_TEXT_HEADER_BYTES + 22] = struct.pack('>H', len_zslices)
 
         return header
 
